@@ -345,3 +345,20 @@ Example from_transformation_empty_linear_refuted :
   | _ => false
   end = true.
 Proof. vm_compute. reflexivity. Qed.
+
+(* ---- by-products of a LinearTransformation chain in the per-instance cache: NOT consistent when a linear stage has an
+   output channel that an earlier stage can deliver (known finding C08-trafo-cache-shadowed-byproduct, confirmed on the
+   real code): sampling the forwarded channel 3 first leaves the parallel constant 7 for channel 4 in the cache; the
+   later request for channel 4 on the same array object is answered 7, a fresh object answers 2 + t ---- *)
+Example history_shadow_refuted :
+  let w := WTrans (WMulti [WConst 1 2 1%N; WTable 2%N [mkE 0 0 Hold; mkE 1 1 Linear]; WTable 3%N [mkE 0 0 Hold; mkE 1 3 Linear]])
+                  (TChain [TParallel [(4%N, TC 7)]; TLinear [1%N; 2%N] [4%N] [[1; 1]]]) in
+  let ts := [0; 1#4; 1#2] in
+  let calls := [(3%N, 0%N, ts); (4%N, 0%N, ts)] in
+  okb w = true /\ twf_all w = true /\ kerr w 3%N = false /\ kerr w 4%N = false /\ trans_ok_all w = false /\
+  match nth 1 (run_hist w calls []) (Err EType), get_sampled w 4%N ts with
+  | OK [Some a0; Some a1; Some a2], OK [Some f0; Some f1; Some f2] =>
+      Qeq_bool a0 7 && Qeq_bool a1 7 && Qeq_bool a2 7 && Qeq_bool f0 2 && Qeq_bool f1 (9#4) && Qeq_bool f2 (5#2)
+  | _, _ => false
+  end = true.
+Proof. vm_compute. repeat split; reflexivity. Qed.
